@@ -454,6 +454,10 @@ def register_numpy():
                 except UnicodeDecodeError:
                     # bytes fast-path
                     data = hash_buffer_hex(b"-".join(x.flat))
+                # The joined elements do not tell where one element ends and
+                # the next one begins: ['a-b', 'c'] and ['a', 'b-c'] join alike
+                lengths = np.fromiter(map(len, x.flat), dtype="i8", count=x.size)
+                data = data, hash_buffer_hex(lengths)
             except (TypeError, UnicodeDecodeError):
                 return normalize_object(x)
         else:
